@@ -117,6 +117,10 @@ def kg_argsort(a, backend, descending=False):
             return backend.argsort(a, descending=descending)
 
     # Slow path: nested arrays or strings need element-by-element comparison
+    def _k(v):
+        # lists are compared element by element, recursively
+        return tuple(_k(q) for q in v) if is_list(v) else v
+
     def _e(x):
-        return (-np.inf, x) if is_empty(a[x]) else (np.max(a[x]), x) if is_list(a[x]) else (a[x], x)
+        return (_k(a[x]), x)
     return np.asarray(sorted(range(len(a)), key=_e, reverse=descending))
